@@ -1672,9 +1672,15 @@ func (e *Exec) hexEncode(st *State, sq *SeqV) *smt.Term {
 		if len(bs) == 0 {
 			return e.strLit("")
 		}
-		return c.App(fmt.Sprintf("hex_encode%d", len(bs)), sortStr, bs...)
+		t := c.App(fmt.Sprintf("hex_encode%d", len(bs)), sortStr, bs...)
+		e.addAxioms(c.Eq(c.App("str_len", smt.BV(64), t), bv64(c, int64(2*len(bs)))))
+		return t
 	}
-	return c.App("hex_encode", sortStr, e.seqTerm(st, sq))
+	// two hex digits per byte (lengths are below 2^31: no overflow)
+	sqt := e.seqTerm(st, sq)
+	t := c.App("hex_encode", sortStr, sqt)
+	e.addAxioms(c.Eq(c.App("str_len", smt.BV(64), t), c.BVAdd(sq.Len, sq.Len)))
+	return t
 }
 
 func (e *Exec) revealed(name string) bool {
